@@ -50,6 +50,9 @@ func workers() int {
 // every request finds it unreachable (connection refused).
 var daemonDown bool
 
+// coldHeaders: rigs whose header cache (extract_headers_ttl) expires at once.
+var coldHeaders bool
+
 // runParallel feeds n indices to w rigs.
 func runParallel(t *testing.T, n int, fn func(g *rig, i int)) {
 	w := workers()
